@@ -69,7 +69,9 @@
 #include <nop/types/thread_local.h>
 #include <nop/types/variant.h>
 #include <nop/utility/buffer_reader.h>
+#include <nop/utility/bounded_writer.h>
 #include <nop/utility/buffer_writer.h>
+#include <nop/utility/pedantic_buffer_writer.h>
 #include <nop/utility/stream_reader.h>
 #include <nop/utility/stream_writer.h>
 
@@ -103,7 +105,7 @@ struct Program { std::vector<std::vector<Op>> th; };
 static constexpr int kSlots = 7;
 static const char kTlKinds[] = "KNIJGMXS";
 static bool is_tl(char k) { return k && strchr(kTlKinds, k) != nullptr; }
-static bool is_kind(char k) { return k && strchr("RTVPKNIJGMXS", k) != nullptr; }
+static bool is_kind(char k) { return k && strchr("RTVPWKNIJGMXS", k) != nullptr; }
 
 // Applicability bookkeeping of the ThreadLocal ops (the "empty | value" part of the model). Used by
 // the decoder (to generate applicable ops), by the model and by the real executor, which cannot
@@ -158,7 +160,7 @@ static bool prog_parse(const std::string& text, Program* out) {
 // threads use the same (T, Slot). When the tape runs out, threads are cut at max(10, decoded ops).
 static constexpr size_t kBlock = 5;
 static Program decode_program(Tape& tp) {
-  static const char kinds[33] = "KGMIXSNJKGMSXIGK" "RRRRRTTTVVVPPPPT";
+  static const char kinds[33] = "KGMIXSNJKGMSXIGK" "RRRRWTTWVVVPPPPT";
   Program p;
   auto white = [&]() { uint64_t w = tp.next(); return w ? mix64(w) : 0; };
   const int n = 2 + (int)(white() % 7);
@@ -575,6 +577,42 @@ static std::string op_table(Ctx& c, const Op& o) {
   return res[0] == '!' ? res : std::string("T") + ((o.a & 1) ? "c " : "b ") + res;
 }
 
+// 'W': primitive writer traffic on thread-owned writers, with a THREAD-SPECIFIC padding value (the
+// library's own table encoder always pads with 0, so hidden state keyed on the padding value would
+// otherwise never differ between threads).
+static std::string op_writer(Ctx& c, const Op& o) {
+  Rng r(mix64(((uint64_t)c.tid << 40) ^ ((uint64_t)o.a << 32) ^ o.n ^ 0x3117e5));
+  const uint8_t pad = (uint8_t)(0x11 + c.tid * 29 + (o.a & 3));
+  const uint8_t fill = (uint8_t)(o.n & 0xff);
+  const size_t n1 = 1 + r.below(40), nskip = 1 + r.below(300);
+  std::string want; want.append(n1, (char)fill); want.append(nskip, (char)pad); want.push_back((char)0x5a);
+  {
+    nop::StreamWriter<std::stringstream> w;
+    for (size_t i = 0; i < n1; i++) if (!w.Write(fill)) return "!writer: StreamWriter::Write failed";
+    if (!w.Skip(nskip, pad)) return "!writer: StreamWriter::Skip failed";
+    if (!w.Write((uint8_t)0x5a)) return "!writer: StreamWriter::Write failed";
+    if (w.stream().str() != want) return "!writer-skip: StreamWriter produced wrong bytes for Skip(" + std::to_string(nskip) + ", " + std::to_string(pad) + ")";
+  }
+  {
+    nop::StreamWriter<std::stringstream> inner;
+    nop::BoundedWriter<nop::StreamWriter<std::stringstream>> w(&inner, n1 + nskip + 1);
+    for (size_t i = 0; i < n1; i++) if (!w.Write(fill)) return "!writer: BoundedWriter::Write failed";
+    if (!w.Skip(nskip - 1, pad)) return "!writer: BoundedWriter::Skip failed";
+    if (!w.WritePadding(pad)) return "!writer: WritePadding failed";     // pads the remaining 2 bytes with the same value
+    std::string got = inner.stream().str();
+    std::string want2; want2.append(n1, (char)fill); want2.append(nskip + 1, (char)pad);
+    if (got != want2) return "!writer-skip: BoundedWriter<StreamWriter> produced wrong padding bytes";
+  }
+  {
+    std::vector<std::uint8_t> buf(want.size(), 0xEE);
+    nop::PedanticBufferWriter w(buf.data(), buf.size());
+    for (size_t i = 0; i < n1; i++) if (!w.Write(fill)) return "!writer: PedanticBufferWriter::Write failed";
+    if (!w.Skip(nskip, pad) || !w.Write((uint8_t)0x5a)) return "!writer: PedanticBufferWriter::Skip failed";
+    if (std::string(buf.begin(), buf.end()) != want) return "!writer-skip: PedanticBufferWriter produced wrong bytes";
+  }
+  return "W h=" + hex16(hash_bytes(want));
+}
+
 static std::string op_variant_burst(Ctx& c, const Op& o) {
   Rng r(mix64(((uint64_t)c.tid << 40) ^ ((uint64_t)o.a << 32) ^ o.n ^ 0x5a5a));
   const int steps = 1 + (o.a & 7);
@@ -677,6 +715,7 @@ static void exec_ops(int tid, const std::vector<Op>& ops, std::vector<std::strin
         case 'T': log->push_back(op_table(ctx, o)); break;
         case 'V': log->push_back(op_variant_burst(ctx, o)); break;
         case 'P': log->push_back(op_rpc(ctx, o)); break;
+        case 'W': log->push_back(op_writer(ctx, o)); break;
         default: log->push_back(tl_apply(tl, book, tid, o)); break;
       }
     }
